@@ -139,6 +139,31 @@ impl<'de> de::Deserializer<'de> for De<'de> {
     }
 }
 
+/// A non-self-describing format (bincode / postcard style): the value can only be decoded
+/// through the type hint the Deserialize impl gives; `deserialize_any` is an error.
+struct StrictDe<'a> {
+    d: &'a [u8],
+}
+impl<'de> de::Deserializer<'de> for StrictDe<'de> {
+    type Error = Err;
+    fn deserialize_any<V: Visitor<'de>>(self, _v: V) -> Result<V::Value, Err> {
+        Result::Err(<Err as de::Error>::custom("this format is not self-describing"))
+    }
+    fn deserialize_bytes<V: Visitor<'de>>(self, v: V) -> Result<V::Value, Err> {
+        v.visit_bytes(self.d)
+    }
+    fn deserialize_byte_buf<V: Visitor<'de>>(self, v: V) -> Result<V::Value, Err> {
+        v.visit_byte_buf(self.d.to_vec())
+    }
+    fn deserialize_seq<V: Visitor<'de>>(self, v: V) -> Result<V::Value, Err> {
+        v.visit_seq(Seq { d: self.d, i: 0, hint: Some(self.d.len()) })
+    }
+    serde::forward_to_deserialize_any! {
+        bool i8 i16 i32 i64 i128 u8 u16 u32 u64 u128 f32 f64 char str string option unit unit_struct newtype_struct tuple
+        tuple_struct map struct enum identifier ignored_any
+    }
+}
+
 fn jb(out: &mut String, d: &[u8]) {
     out.push('[');
     for (i, x) in d.iter().enumerate() {
@@ -177,6 +202,20 @@ fn case(f: &mut impl std::io::Write, d: &[u8]) {
         jb(&mut out, &ser.unwrap_or_default());
         out.push_str("}\n");
         f.write_all(out.as_bytes()).unwrap();
+        {
+            let r: Result<Vec<u8>, Err> = if ty == "Bytes" {
+                Bytes::deserialize(StrictDe { d }).map(|b| b.to_vec())
+            } else {
+                BytesMut::deserialize(StrictDe { d }).map(|b| b.to_vec())
+            };
+            out.clear();
+            let _ = write!(out, "{{\"k\":\"serde\",\"ty\":\"{}\",\"entry\":\"non_self_describing_format\",\"ok\":{},\"d\":", ty, r.is_ok());
+            jb(&mut out, d);
+            out.push_str(",\"out\":");
+            jb(&mut out, &r.unwrap_or_default());
+            out.push_str("}\n");
+            f.write_all(out.as_bytes()).unwrap();
+        }
         for (name, e) in &entries {
             let r: Result<Vec<u8>, Err> = if ty == "Bytes" {
                 Bytes::deserialize(De { e: *e, d }).map(|b| b.to_vec())
